@@ -22,9 +22,22 @@ var Base = time.Date(2020, 1, 1, 0, 0, 0, 0, time.UTC)
 
 const MaxT = 1 << 20 // abstract times above this stand for WatermarkMaxValue
 
+// farTimes: abstract times standing for instants outside the range of a 64-bit nanosecond count (1677-09-21 .. 2262-04-11).
+var farTimes = map[int]time.Time{
+	-3:      time.Date(1066, 10, 14, 9, 0, 0, 0, time.UTC),
+	-2:      time.Date(1500, 6, 15, 12, 30, 45, 123456789, time.UTC),
+	-1:      time.Date(1677, 9, 21, 0, 12, 43, 0, time.UTC),
+	1000001: time.Date(2262, 4, 12, 0, 0, 0, 0, time.UTC),
+	1000002: time.Date(2300, 1, 1, 0, 0, 0, 1, time.UTC),
+	1000003: time.Date(9999, 12, 31, 23, 59, 59, 0, time.UTC),
+}
+
 func TimeOf(t int) time.Time {
 	if t == 0 {
 		return time.Time{}
+	}
+	if ft, ok := farTimes[t]; ok {
+		return ft
 	}
 	if t >= MaxT {
 		return execution.WatermarkMaxValue
@@ -38,6 +51,14 @@ func AbsTime(t time.Time) int {
 	}
 	if t.Equal(execution.WatermarkMaxValue) {
 		return MaxT
+	}
+	for k, ft := range farTimes {
+		if t.Equal(ft) {
+			return k
+		}
+	}
+	if t.Year() < 1700 || t.Year() > 2250 {
+		return -int(t.Unix()%1000000007) - 1000 // Sub would saturate: a marker distinct from every catalogue entry
 	}
 	d := t.Sub(Base)
 	if d%time.Second != 0 {
@@ -234,7 +255,8 @@ func FromValues(vs []octosql.Value) []interface{} {
 }
 
 // Rec is an abstract record / message.
-//   {"m":"rec","v":[values],"r":false,"t":2} | {"m":"wm","w":3} | {"m":"eos"} | {"m":"err","e":"..."}
+//
+//	{"m":"rec","v":[values],"r":false,"t":2} | {"m":"wm","w":3} | {"m":"eos"} | {"m":"err","e":"..."}
 func ToRecord(m map[string]interface{}) execution.Record {
 	r, _ := m["r"].(bool)
 	t := 0
